@@ -153,6 +153,14 @@ def run(tier: str) -> int:
     for idx, v in res:
         judge(o, cases[idx], v, "G")
         o.traces += 1
+    if thorough:
+        # every admissible list of exactly five arguments over the reduced alphabet (FormsR)
+        r5 = tlc("Gen_ArgViews", "Gen_ArgViews_5R.cfg", workers=1, timeout=3000)
+        o.add_tlc("Gen_ArgViews[=5, reduced alphabet] laws+cases", r5)
+        res5 = pmap(chunk_fn, [(i, c["args"]) for i, c in enumerate(r5.cases)])
+        for idx, v in res5:
+            judge(o, r5.cases[idx], v, "G5")
+            o.traces += 1
     o.exhaustive = True
     o.sample({"call": "{{T" + "".join("|" + text(a) for a in cases[len(cases) // 2]["args"]) + "}}", "map": {str(k): v for k, v in exp_map(cases[len(cases) // 2]["map"]).items()}})
     # V: longer sampled lists, evaluated by TLC from a file
@@ -160,7 +168,7 @@ def run(tier: str) -> int:
     forms = sorted({common.json_key(a) for c in cases for a in c["args"]})
     forms = [json.loads(f) for f in forms]
     lists = []
-    for _ in range(3000 if thorough else 400):
+    for _ in range(20000 if thorough else 400):
         n = rng.randint(4, 6)
         lists.append([rng.choice(forms) for _ in range(n)])
     with Scratch("c14v-") as dd:
